@@ -8,7 +8,7 @@ import time
 from tlaval import parse
 
 JAR = "/opt/veriftools/tla/tla2tools.jar:/opt/veriftools/tla/CommunityModules-deps.jar"
-SPEC = "/verif/spec"
+SPEC = os.environ.get("CFDP_VERIF_ROOT", "/verif") + "/spec"
 
 
 class TlcError(Exception):
